@@ -14,6 +14,7 @@ import (
 	"os"
 	"runtime"
 	"strings"
+	"sync"
 	"time"
 
 	"github.com/gobwas/httphead"
@@ -39,6 +40,10 @@ type cfg struct {
 	builtinTLS bool
 	// wrapConn: Dialer.WrapConn set to a wrapper that hands the conn back unchanged
 	wrapConn bool
+	// sessionWrap: Dialer.WrapConn set to a layer that keeps deadlines to itself (a session or
+	// multiplexing layer that implements them on its own and never forwards them to the
+	// transport): whatever Dial does to the transport directly it has to undo itself
+	sessionWrap bool
 	// longRequest: extension offers, subprotocols and an extra header through a 64-byte write
 	// buffer, so that the request goes out in several writes (some from inside the option and
 	// header writers)
@@ -61,6 +66,9 @@ func (c cfg) String() string {
 	}
 	if c.longRequest {
 		s += " long-request-small-write-buffer"
+	}
+	if c.sessionWrap {
+		s += " wrapconn-keeping-deadlines-to-itself"
 	}
 	return s
 }
@@ -94,6 +102,22 @@ func runDial(d ws.Dialer, via string, ctx context.Context, url string, out *dial
 	}
 	close(done)
 }
+
+// sessionConn is a WrapConn layer that implements deadlines on its own: it never forwards them.
+type sessionConn struct {
+	net.Conn
+	mu sync.Mutex
+	dl time.Time
+}
+
+func (s *sessionConn) SetDeadline(t time.Time) error {
+	s.mu.Lock()
+	s.dl = t
+	s.mu.Unlock()
+	return nil
+}
+func (s *sessionConn) SetReadDeadline(t time.Time) error  { return s.SetDeadline(t) }
+func (s *sessionConn) SetWriteDeadline(t time.Time) error { return s.SetDeadline(t) }
 
 func response(key string) []byte {
 	return []byte("HTTP/1.1 101 Switching Protocols\r\nUpgrade: websocket\r\nConnection: Upgrade\r\nSec-WebSocket-Accept: " + hs.Accept(key) + "\r\n\r\n")
@@ -139,6 +163,9 @@ func execute(c *explore.Chooser, cf cfg, t *explore.T) *explore.Fail {
 	}
 	if cf.wrapConn {
 		d.WrapConn = func(c net.Conn) net.Conn { return c }
+	}
+	if cf.sessionWrap {
+		d.WrapConn = func(c net.Conn) net.Conn { return &sessionConn{Conn: c} }
 	}
 	if cf.longRequest {
 		d.WriteBufferSize = 64
@@ -442,6 +469,9 @@ func main() {
 						if sch == "ws" && (p == "responsive1" || p == "silent0") && to != "long" {
 							cfgs = append(cfgs, cfg{ctxKind: ck, timeout: to, peer: p, scheme: sch, longRequest: true},
 								cfg{ctxKind: ck, timeout: to, peer: p, scheme: sch, longRequest: true, partialWrites: true})
+						}
+						if sch == "ws" && p == "responsive1" && to != "long" {
+							cfgs = append(cfgs, cfg{ctxKind: ck, timeout: to, peer: p, scheme: sch, sessionWrap: true})
 						}
 						if ck != "background" && sch == "ws" && (p == "responsive1" || p == "silent0") {
 							cfgs = append(cfgs, cfg{ctxKind: ck, timeout: to, peer: p, scheme: sch, preCancelled: true})
